@@ -59,7 +59,11 @@ class OdeModel:
         self.tree = tree
         pkg = package(tree)
         self.func = pkg.method("TemplateLoader", "_prepare_ode_content")
-        self.flow = Flow(self.func, FILE)
+        # helper procedures of TemplateLoader that fill the lists they are handed are expanded in place
+        def _resolver(name, _pkg=pkg):
+            _, f = _pkg.resolve("TemplateLoader", name)
+            return f
+        self.flow = Flow(self.func, FILE, proc_resolver=_resolver)
         fl = self.flow
         params = [a.arg for a in self.func.args.args if a.arg != "self"]
         if not params:
@@ -121,6 +125,8 @@ class OdeModel:
 
     def is_n_eqns(self, v) -> bool:
         v = simp(v)
+        if v == ("call", ("global", "len"), (("acc", self.RHSNAME),), ()):
+            return True         # rhs is created as ['0.0'] * n_eqns (C01.R1) and only its entries are re-assigned
         if v[0] == "call" and v[1] == ("global", "max") and len(v[2]) == 2 and not v[3]:
             a, b = v[2]
             if a == ("const", 1):
